@@ -253,6 +253,26 @@ pub fn generate_c15<W: Write>(c: &mut Cases<W>, rng: &mut Rng, thorough: bool) {
 
 /// C18: mostly sorted sequences with inversions / duplicates at chosen places
 pub fn generate_c18<W: Write>(c: &mut Cases<W>, rng: &mut Rng, thorough: bool) {
+    // small-scope exhaustive: EVERY insert sequence (sorted or not, with duplicates) of length 1..5
+    // (thorough: 1..6) over four keys, with values large enough that blocks are cut after each entry
+    // (unclamped 16-byte blocks) or never (8192), index levels 0 and 2
+    {
+        let keys: [Vec<u8>; 4] = [vec![], vec![0], vec![0, 0], vec![1]];
+        let maxlen = if thorough { 6 } else { 5 };
+        let base = FileCfg { codec: CompressionType::None, level: 0, block_size: 16, unclamped: true, interval: Some(1), levels: 0 };
+        for levels in [0u8, 2] {
+            for (block_size, unclamped) in [(16usize, true), (8192usize, false)] {
+                let cfg = FileCfg { levels, block_size, unclamped, ..base.clone() };
+                for len in 1..=maxlen {
+                    for code in 0..4usize.pow(len as u32) {
+                        let mut x = code;
+                        let es: Vec<(Vec<u8>, Vec<u8>)> = (0..len).map(|p| { let k = keys[x % 4].clone(); x /= 4; (k, vec![p as u8; 20]) }).collect();
+                        emit(c, &cfg, &es, false);
+                    }
+                }
+            }
+        }
+    }
     let n = if thorough { 6000 } else { 400 };
     for i in 0..n {
         let cfg = gen_cfg(rng, i % 2 == 0, false);
